@@ -344,6 +344,26 @@ def main(tier):
     results = pmap(run_case, tasks, chunksize=4)
     for r in results:
         agg.add(r)
+    # HTML comments inside Markdown: the shift from html-block coordinates to file coordinates
+    from . import mdhtml
+    html_tasks = [(1, 1), (2, 1), (1, 2)] if tier == 'quick' else [(1, 1), (2, 1), (1, 2), (2, 2), (3, 1), (1, 3)]
+    html_results = pmap(mdhtml.run_html, html_tasks, chunksize=1)
+    html_seen = set()
+    html_violations = []
+    for r in html_results:
+        r2 = dict(r)
+        vs = []
+        for v in r.get('violations', []):
+            if v['role'] in html_seen:
+                continue
+            html_seen.add(v['role'])
+            v['kind'] = 'mdhtml'
+            v['src'] = ''
+            mdhtml.confirm_html(binary, PROP, v, 0)
+            vs.append(v)
+        r2['violations'] = []
+        agg.add(r2)
+        html_violations.extend(vs)
     by_role = {}
     for v in agg.violations:
         by_role.setdefault((v['kind'], v['role']), []).append(v)
@@ -357,7 +377,7 @@ def main(tier):
                 got = v
                 break
         final.append(got or vs[0])
-    agg.violations = final
+    agg.violations = final + html_violations
     samples = [s for r in results for s in r.get('samples', [])]
     rnd.shuffle(samples)
     for s in samples[:b['validate']]:
@@ -378,10 +398,12 @@ def main(tier):
         assumptions=['tree-sitter is replaced by the two Comment values a /* */ grammar delivers for the layout (validated against the real binary on sampled witnesses)',
                      'the winnow tag parser is replaced by a reference scanner over the concrete comment text',
                      'regex is a stub for the single pattern ^a+$',
+                     'Markdown html blocks: MdParser::parse_html_comments on symbolic block start (row, column) and symbolic relative comment positions; tree-sitter query results and the inner HTML comment parser are stubs that return block-relative coordinates',
                      'ASCII; keys over {a,b} with inner blanks; Lua/AI validators build the same range expression but are async and not interpreted'],
-        stubs=['WinnowBlockTagParser::next (reference scanner)', 'regex::Regex::new / is_match for ^a+$', 'serde_json::to_value'],
+        stubs=['WinnowBlockTagParser::next (reference scanner)', 'regex::Regex::new / is_match for ^a+$', 'serde_json::to_value',
+               'tree_sitter Parser::parse / QueryCursor::matches / Node (html-block model)', 'CommentsParser::parse of the html parser (block-relative comments)'],
         must_cover=['key-range', 'tag-range', 'tag on a later comment line', 'comment continues after the tag line',
-                    'content starts on the comment line'],
+                    'content starts on the comment line', 'html blocks'],
         explanation='per layout and line shapes: first-offender conditions as Z3 formulas over the key bytes; reported range compared with the positions in the assembled file text')
 
 
